@@ -231,7 +231,11 @@ pub const LONG_LENGTHS: &[u32] = &[15, 16, 17, 31, 32, 33, 63, 64, 65, 100, 127,
 
 /// a long run of plain narrow characters
 pub fn long_run(src: &mut Src) -> String {
-    let n = *src.pick(LONG_LENGTHS) as usize;
+    let mut n = *src.pick(LONG_LENGTHS) as usize;
+    if src.chance(20) {
+        // rarely much longer (title / payload limits at 1 K, 4 K)
+        n = *src.pick(&[511usize, 512, 513, 1023, 1024, 1025, 2048, 4095, 4096, 4097]);
+    }
     let pat: &[char] = src.pick::<&[char]>(&[
         &['a'],
         &['a', 'b', 'c', 'd', 'e', 'f', 'g'],
@@ -345,7 +349,15 @@ pub fn mode_list(src: &mut Src, deccolm: bool) -> (Vec<u32>, bool) {
 /// One listener-level operation of the given group (may produce a short compound).
 fn group_ops(src: &mut Src, g: usize, cols: u32, lines: u32, p: &Profile, out: &mut Vec<Op>) {
     match g {
-        0 => out.push(Op::Draw(text(src, 6))),
+        0 => {
+            let mut t = text(src, 6);
+            if src.chance(10) {
+                // through the API any character may be drawn, also the ones a parser would interpret
+                t.push(*src.pick(&['\x1b', '\x07', '\x08', '\x0a', '\x0d', '\x0e', '\x0f', '\u{9b}', '\u{9c}', '\u{9d}']));
+                t.push('k');
+            }
+            out.push(Op::Draw(t));
+        }
         1 => match src.below(14) {
             0 => out.push(Op::Cuu(num(src, lines))),
             1 => out.push(Op::Cud(num(src, lines))),
